@@ -3,7 +3,7 @@ import ast
 
 from ..model import AnalysisError, Model, walk_no_nested, norm_stmt, names_in
 from ..callgraph import CallGraph
-from .. import flow
+from .. import sem, flow
 
 EXPLANATION = (
     'Argument: a strict prefix drives the decoder along the path of the full encoding until it asks for bits beyond the cut; '
@@ -53,36 +53,58 @@ def raw_accesses(f):
     return out
 
 
-def guard_before(f, node):
-    """A top-level `if <test mentioning self.number_of_bits>: raise OutOfDataError` that precedes node."""
-    st = node
-    while getattr(st, '_parent', None) is not f:
-        st = st._parent
-        if st is None:
-            return None
-    for s in f.body[:f.body.index(st)]:
-        if isinstance(s, ast.If) and mentions_self_attr(s.test, 'number_of_bits') \
-                and any(isinstance(r, ast.Raise) and 'OutOfDataError' in ast.unparse(r) for r in s.body):
-            return s
+NB = 'self.number_of_bits'
+
+
+def _lits(*srcs):
+    out = set()
+    for src in srcs:
+        t, pol = sem.ccond(sem.parse_expr(src))
+        out.add((t, pol))
+    return out
+
+
+def sufficient_facts(kind, amount_text):
+    """Condition literals (canonical text, polarity) each of which, established before the access, excludes
+    'fewer bits remain than are consumed'."""
+    at_least_one = _lits('self.number_of_bits != 0', 'self.number_of_bits > 0', 'self.number_of_bits >= 1', 'not (self.number_of_bits < 1)')
+    if kind == 'shift':
+        return at_least_one
+    if amount_text == '1':
+        return at_least_one
+    if amount_text is not None:
+        return _lits('not (%s > self.number_of_bits)' % amount_text)
     return None
 
 
-def guard_covers(guard, kind, amount, f):
-    """Does the guard exclude 'fewer bits remain than are consumed'?"""
-    t = guard.test
-    src = ast.unparse(t)
-    if kind in ('consume', 'index'):
-        if isinstance(amount, ast.Constant) and amount.value == 1:
-            return src in ('self.number_of_bits == 0', 'self.number_of_bits < 1', '1 > self.number_of_bits', 'self.number_of_bits <= 0', 'not self.number_of_bits')
-        if isinstance(amount, ast.Name):
-            return src in ('%s > self.number_of_bits' % amount.id, 'self.number_of_bits < %s' % amount.id)
-        if kind == 'index':
-            # value[offset:offset + number_of_bits] / value[self.number_of_read_bits()]: any guard on the amount read
-            return True
-        return False
-    if kind == 'shift':
-        return src in ('self.number_of_bits == 0', 'self.number_of_bits < 1', 'self.number_of_bits <= 0', 'not self.number_of_bits')
-    return False
+def guard_status(f, node, kind, amount, resolver):
+    """-> (ok, why).  Every path of f that executes the statement holding `node` has established, before it, a fact that
+    bounds the consumed amount by the remaining bits -- directly or through a checking helper it calls first."""
+    ps = sem.paths(f, resolver=resolver)
+    if ps is None:
+        return None, 'too many paths'
+    st = Model.enclosing_stmt(node)
+    reach = sem.reaching(ps, st)
+    if not reach:
+        return None, 'statement not found on any path'
+    v = sem.View(f)
+    amount_text = None
+    if amount is not None and kind in ('consume',):
+        amount_text = sem.ctext(v.expr(amount))
+    want = sufficient_facts(kind, amount_text)
+    for p, conds in reach:
+        have = {(c[0], c[1]) for c in conds}
+        if kind == 'index' or want is None:
+            # value[offset:offset + n] / value[self.number_of_read_bits()]: any established bound of an amount by the remaining bits
+            ok = any(NB in t and (' > 0' in t or ' == 0' in t) for t, pol in have)
+        else:
+            ok = bool(have & want)
+        if not ok:
+            tests = sorted(('' if pol else 'not ') + t for t, pol in have if NB in t)
+            if tests:
+                return False, 'the tests established before it (%s) do not bound the amount consumed' % '; '.join(tests)
+            return False, 'no remaining-bits test precedes it'
+    return True, ''
 
 
 def check(ctx):
@@ -107,6 +129,8 @@ def check(ctx):
                 ctx.instance('C16.R1', Model.qual(f), 'delegates', 'no raw state access', nontrivial=False, node=f, file=rel)
                 continue
             bad = []
+            undecided = []
+            resolver = sem.class_resolver(c)
             for node, kind, amount in raws:
                 # SELF-MASK idiom: amount is a local bound to self.number_of_bits & const (align)
                 if kind == 'consume' and isinstance(amount, ast.Name):
@@ -118,11 +142,14 @@ def check(ctx):
                 if kind == 'assign':
                     bad.append((node, 'assigns self.number_of_bits outside __init__'))
                     continue
-                g = guard_before(f, node)
-                if g is None:
-                    bad.append((node, 'no remaining-bits test precedes %s' % norm_stmt(Model.enclosing_stmt(node))))
-                elif not guard_covers(g, kind, amount, f):
-                    bad.append((node, 'the guard `%s` does not cover the amount consumed by %s' % (ast.unparse(g.test), norm_stmt(Model.enclosing_stmt(node)))))
+                ok, why = guard_status(f, node, kind, amount, resolver)
+                if ok is None:
+                    undecided.append(why)
+                elif not ok:
+                    bad.append((node, '%s: %s' % (norm_stmt(Model.enclosing_stmt(node)), why)))
+            if undecided and not bad:
+                ctx.instance('C16.R1', Model.qual(f), 'undecided', undecided[0], nontrivial=False, node=f, file=rel)
+                continue
             ctx.instance('C16.R1', Model.qual(f), 'guarded' if not bad else 'VIOLATION', '%d raw accesses' % len(raws), node=f, file=rel)
             for node, why in bad:
                 ctx.violation('C16.R1', rel, node, Model.qual(f),
@@ -178,11 +205,13 @@ def check(ctx):
     for qual in ('StandardDecodeMixin.decode', 'PrimitiveOrConstructedType.decode'):
         f = model.func(BER, qual)
         # a branch testing len(<tag slice>) != self.tag_len that raises OutOfByteDataError
-        ok = False
-        for n in walk_no_nested(f):
-            if isinstance(n, ast.If) and isinstance(n.test, ast.Compare) and 'self.tag_len' in ast.unparse(n.test) and 'len(' in ast.unparse(n.test) \
-                    and any(isinstance(r, ast.Raise) and 'OutOfByteDataError' in ast.unparse(r) for r in n.body):
-                ok = True
+        ps = sem.paths(f)
+        if ps is None:
+            ctx.instance('C16.R4', '%s short-tag test' % Model.qual(f), 'undecided', 'too many paths', nontrivial=False, node=f, file=BER)
+            continue
+        # some path raises OutOfByteDataError because the number of octets found differs from the (configured) tag length
+        ok = any(p.outcome[0] == 'raise' and p.outcome[1] == 'OutOfByteDataError' and p.conds and 'len(' in p.conds[-1][0]
+                 and 'tag' in p.conds[-1][0] for p in ps)
         ctx.instance('C16.R4', '%s short-tag test' % Model.qual(f), 'ok' if ok else 'VIOLATION', node=f, file=BER)
         if not ok:
             ctx.violation('C16.R4', BER, f, Model.qual(f), 'a tag cut short by truncation is no longer reported as OutOfByteDataError (falls through to TAG_MISMATCH / wrong value)',
@@ -204,25 +233,19 @@ def check(ctx):
                     ctx.violation('C16.R4', BER, n, Model.qual(f), 'buffer index %s outside try/except IndexError -> OutOfByteDataError: a short prefix raises IndexError' % ast.unparse(n))
     # long-form length octets: taken by slicing and compared by count
     f = model.func(BER, 'decode_length')
-    ok = False
-    for n in walk_no_nested(f):
-        if isinstance(n, ast.If) and isinstance(n.test, ast.Compare) and 'len(' in ast.unparse(n.test) and 'number_of_bytes' in ast.unparse(n.test) \
-                and any(isinstance(r, ast.Raise) and 'OutOfByteDataError' in ast.unparse(r) for r in n.body):
-            ok = True
+    # some path raises OutOfByteDataError because the slice holding the long-form length octets is shorter than announced
+    dps = sem.paths(f) or []
+    ok = any(p.outcome[0] == 'raise' and p.outcome[1] == 'OutOfByteDataError' and p.conds and 'len(' in p.conds[-1][0] and ' == 0' in p.conds[-1][0]
+             and not p.conds[-1][1] for p in dps)
     ctx.instance('C16.R4', '%s long-form octet count test' % Model.qual(f), 'ok' if ok else 'VIOLATION', node=f, file=BER)
     if not ok:
         ctx.violation('C16.R4', BER, f, Model.qual(f), 'missing length octets are no longer detected (int() of a short slice gives a wrong length)', stmt='length octet count test missing')
     # missing-data test (same rule as C08.R5)
-    ok = False
-    for n in walk_no_nested(f):
-        if isinstance(n, ast.If) and isinstance(n.test, ast.Compare) and isinstance(n.test.ops[0], (ast.Gt, ast.GtE)) \
-                and isinstance(n.test.left, ast.BinOp) and names_in(n.test.left) == {'offset', 'length'} \
-                and any(isinstance(r, ast.Raise) and 'MissingDataError' in ast.unparse(r) for r in n.body) \
-                and getattr(n, '_parent', None) is f and isinstance(n.test.ops[0], ast.Gt):
-            ok = True
+    from .C08 import decode_length_missing_data
+    ok, why, _n = decode_length_missing_data(model)
     ctx.instance('C16.R4', '%s missing-data test' % Model.qual(f), 'ok' if ok else 'VIOLATION', node=f, file=BER)
     if not ok:
-        ctx.violation('C16.R4', BER, f, Model.qual(f), 'offset + length > len(encoded) is no longer rejected unconditionally with MissingDataError', stmt='missing-data test')
+        ctx.violation('C16.R4', BER, f, Model.qual(f), 'offset + length > len(encoded) is no longer rejected unconditionally with MissingDataError (%s)' % why, stmt='missing-data test')
     ctx.floor('C16.R4', 6)
 
     # ---- R5
